@@ -153,3 +153,34 @@ Definition erase (ls : list label) : list label := filter (fun l => negb (is_tic
 (* a disjunction of two goals writing 7 and 8, started by Run: root (not waited for) with two waited children *)
 Definition prog_disj : list task :=
   [mkT None false NotStarted []; mkT (Some 0) true NotStarted [7]; mkT (Some 0) true NotStarted [8]].
+
+(* ---------------------------------------------------------------------------------------------- *)
+(* Why handing back a permit has to be ONE atomic non-blocking operation (`select { case ch <- x: default: }`).
+   The check-then-act variant  `if len(ch) == cap(ch) { return }; ch <- x`  is two steps: between the check and the
+   send another finishing goroutine (or the ticker) may take the last free slot; the send then blocks, and since it
+   sits in the deferred release that runs before wg.Done, the parent's Wait never returns.
+   A small LTS of k finishing goroutines and the ticker, no acquirer left (the search is over). *)
+Inductive rstat := RIdle | RChecked | RReturned.
+Record ccfg := mkCC { ctok : nat; rel : list rstat }.
+Inductive clabel := CCheck (i : nat) | CSend (i : nat) | CTick.
+
+Definition cstep (max : nat) (c : ccfg) (l : clabel) : option ccfg :=
+  match l with
+  | CCheck i =>
+      match nth_error (rel c) i with
+      | Some RIdle => Some (mkCC (ctok c) (upd i (if ctok c <? max then RChecked else RReturned) (rel c)))
+      | _ => None
+      end
+  | CSend i =>
+      match nth_error (rel c) i with
+      | Some RChecked => if ctok c <? max then Some (mkCC (S (ctok c)) (upd i RReturned (rel c))) else None   (* full: blocks *)
+      | _ => None
+      end
+  | CTick => if ctok c <? max then Some (mkCC (S (ctok c)) (rel c)) else None
+  end.
+
+Fixpoint crun (max : nat) (c : ccfg) (ls : list clabel) : option ccfg :=
+  match ls with
+  | [] => Some c
+  | l :: r => match cstep max c l with Some c' => crun max c' r | None => None end
+  end.
